@@ -10,7 +10,7 @@ import ast
 import z3
 
 from .extract import ClassInfo
-from .values import (NONE, OutOfSubset, V, VBool, VComp, VDict, VFam, VFunc, VGraph, VInt, VModule, VNode, VNone, VNx,
+from .values import (freeze, NONE, OutOfSubset, V, VBool, VComp, VDict, VFam, VFunc, VGraph, VInt, VModule, VNode, VNone, VNx,
                      VObj, VOpaque, VPos, VSeq, VSet, VStr, VTuple)
 
 BUILTINS = {"set", "frozenset", "list", "tuple", "sorted", "any", "all", "len", "isinstance", "iter", "next", "min",
@@ -28,6 +28,25 @@ def is_builtin(name):
 
 def is_lib_module(q):
     return q.split(".")[0] in LIB_MODULES
+
+
+def is_lib_module_name(q):
+    """Is the qualified name a library *module* (as opposed to a function / class inside one)?"""
+    return q in LIB_MODULES or _is_submodule(q)
+
+
+def as_family(ex, comp):
+    """A collection of node sets described by one binder, as an indexed family; None if it has another shape."""
+    if isinstance(comp, VFam):
+        return comp
+    if isinstance(comp, VComp) and len(comp.alts) == 1 and len(comp.alts[0][0]) == 1 and isinstance(comp.alts[0][2], VSet):
+        (r,), g, e = comp.alts[0]
+        pe = e.pred
+        body = lambda x: pe(x)
+        idx = lambda q: z3.substitute(g, (r, q))
+        mem = lambda q, x: z3.substitute(body(x), (r, q))
+        return VFam(idx, mem)
+    return None
 
 
 def _false(*xs):
@@ -65,21 +84,54 @@ def nx_edges_view(ex, g: VNx):
     L = ex.L
     if g.directed:
         return VSet(lambda a, b: g.E(a, b), arity=2, kind="list", owned=False)
-    E = g._E if not g.tracked else None
-    g._check_read()
-    ori = L.pred("ori", 2)
-    L.add_axioms({ori.name()}, [
-        L.forall(2, lambda a, b: L.Implies(ori(a, b), E(a, b))),
-        L.forall(2, lambda a, b: L.Implies(E(a, b), L.Or(ori(a, b), ori(b, a)))),
-        L.forall(2, lambda a, b: L.Implies(L.And(ori(a, b), ori(b, a)), a == b)),
+    E = g.curE
+    ori = param_pred(ex, "ori", 2, [
+        lambda o: L.forall(2, lambda a, b: L.Implies(o(a, b), E(a, b))),
+        lambda o: L.forall(2, lambda a, b: L.Implies(E(a, b), L.Or(o(a, b), o(b, a)))),
+        lambda o: L.forall(2, lambda a, b: L.Implies(L.And(o(a, b), o(b, a)), a == b)),
     ])
     return VSet(lambda a, b: ori(a, b), arity=2, kind="list", owned=False)
+
+
+def closure(ex, E, name):
+    """rtc of E; rejected when E depends on an enclosing iteration constant (the closure symbol would have to be
+    indexed by it)."""
+    L = ex.L
+    if ex.binders:
+        x, y = L.node("cx"), L.node("cy")
+        body = E(x, y)
+        ids = {b.get_id() for b in ex.binders}
+        todo, seen = [body], set()
+        while todo:
+            t = todo.pop()
+            if t.get_id() in seen:
+                continue
+            seen.add(t.get_id())
+            if t.get_id() in ids:
+                raise OutOfSubset("closure of a relation that depends on a loop / comprehension variable")
+            if z3.is_quantifier(t):
+                todo.append(t.body())
+            elif z3.is_app(t):
+                todo.extend(t.children())
+    return L.rtc(E, name)
+
+
+def param_pred(ex, name, arity, axioms):
+    """A fresh predicate that may depend on the enclosing iteration constants (it takes them as extra arguments), with
+    its defining axioms closed over those constants."""
+    L = ex.L
+    bs = list(ex.binders)
+    nm = L.fresh_name(name)
+    F = z3.Function(nm, *([L.Node] * (len(bs) + arity)), L.B)
+    o = lambda *xs: F(*bs, *xs)
+    L.add_axioms({nm}, [L.forall_c(bs, ax(o)) if bs else ax(o) for ax in axioms])
+    return o
 
 
 def acyclic(ex, E):
     """No directed cycle: there are no u, v with E(u,v) and v ->* u."""
     L = ex.L
-    C = L.rtc(E, "reach")
+    C = closure(ex, E, "reach")
     return L.forall(2, lambda u, v: L.Not(L.And(E(u, v), C(v, u)))), C
 
 
@@ -87,6 +139,8 @@ def acyclic(ex, E):
 def get_attr(ex, base, attr):
     L = ex.L
     if isinstance(base, VGraph):
+        if attr == "__class__":
+            return VFunc("class", ex.repo.resolve("y0.graph.NxMixedGraph"))
         if attr == "directed":
             return base.directed
         if attr == "undirected":
@@ -94,6 +148,7 @@ def get_attr(ex, base, attr):
         return bound_method(ex, base, ex.repo.resolve("y0.graph.NxMixedGraph"), attr)
     if isinstance(base, VNx):
         if attr in ("nodes", "edges"):
+            base = freeze(base)
             # attribute access of the view (graph.nodes / graph.edges), callable or iterable
             view = VSet(lambda x: base.N(x), owned=False) if attr == "nodes" else nx_edges_view(ex, base)
             view.nx_view = (base, attr)
@@ -508,9 +563,14 @@ def construct(ex, cls: ClassInfo, args, kwargs):
 
 
 # ------------------------------------------------------------------------------------------------ builtins and library functions
+MUTATING_BUILTINS = ("networkx.set_node_attributes",)
+
+
 def call_builtin(ex, name, args, kwargs):
     L = ex.L
     short = name.split(".")[-1]
+    if name not in MUTATING_BUILTINS:
+        args = [freeze(a) if isinstance(a, V) else a for a in args]
     if name in ("set", "frozenset", "list", "tuple"):
         if not args:
             s = empty_set(kind="list" if name in ("list", "tuple") else "set")
@@ -525,15 +585,13 @@ def call_builtin(ex, name, args, kwargs):
             return a
         if isinstance(a, VComp) and a.alts and all(isinstance(e, VSet) for _, _, e in a.alts):
             # a set of frozensets: indexed family (only the single-binder form is modelled)
-            if len(a.alts) == 1 and len(a.alts[0][0]) == 1:
-                (r,), g, e = a.alts[0]
-                idx = lambda q: z3.substitute(g, (r, q))
-                mem = lambda q, x: z3.substitute(e.has(x), (r, q))
-                return VFam(idx, mem)
+            fam = as_family(ex, a)
+            if fam is not None:
+                return fam
             raise OutOfSubset("family with several binders")
         s = ex.as_set(a)
         kind = "list" if name in ("list", "tuple") else "set"
-        out = VSet(s._pred if not s.tracked else s.pred, arity=s.arity, kind=kind, owned=True)
+        out = VSet(s.pred, arity=s.arity, kind=kind, owned=True)
         return out
     if name == "isinstance":
         return VBool(isinstance_(ex, args[0], args[1]))
@@ -599,13 +657,13 @@ def call_builtin(ex, name, args, kwargs):
         if not (isinstance(g, VNx) and isinstance(s, VNode)):
             raise OutOfSubset(name)
         ex.require(g.N(s.t), "NetworkXError", short)
-        C = L.rtc(lambda a, b: g.E(a, b), "anc")
+        C = closure(ex, lambda a, b: g.E(a, b), "anc")
         if short == "ancestors":
             return VSet(lambda x: L.And(C(x, s.t), x != s.t, g.N(x)))
         return VSet(lambda x: L.And(C(s.t, x), x != s.t, g.N(x)))
     if name == "networkx.connected_components":
         g = args[0]
-        C = L.rtc(lambda a, b: g.E(a, b), "cc")
+        C = closure(ex, lambda a, b: g.E(a, b), "cc")
         comp = VComp(None, None, None, kind="gen")
         r = L.node("r")
         comp.alts = [([r], g.N(r), VSet(lambda x, r=r: L.And(g.N(x), C(r, x)), kind="set", owned=False))]
@@ -613,19 +671,18 @@ def call_builtin(ex, name, args, kwargs):
     if name == "networkx.is_connected":
         g = args[0]
         ex.require(L.exists(1, lambda x: g.N(x)), "NetworkXPointlessConcept", "is_connected")
-        C = L.rtc(lambda a, b: g.E(a, b), "cc")
+        C = closure(ex, lambda a, b: g.E(a, b), "cc")
         return VBool(L.forall(2, lambda a, b: L.Implies(L.And(g.N(a), g.N(b)), C(a, b))))
     if name == "networkx.has_path":
         g, a, b = args
         ex.require(g.N(a.t), "NodeNotFound", "has_path.source")
         ex.require(g.N(b.t), "NodeNotFound", "has_path.target")
-        C = L.rtc(lambda x, y: g.E(x, y), "path")
+        C = closure(ex, lambda x, y: g.E(x, y), "path")
         return VBool(C(a.t, b.t))
     if name == "networkx.topological_sort":
         g = args[0]
         ac, _ = acyclic(ex, lambda a, b: g.E(a, b))
         ex.require(ac, "NetworkXUnfeasible", "topological_sort")
-        N = g._N if not g.tracked else g.N
         before = L.strict_total_order_on(lambda x: g.N(x), "topo")
         ex.assume(L.forall(2, lambda a, b: L.Implies(g.E(a, b), before(a, b))))
         return VSeq(lambda x: g.N(x), before)
@@ -643,6 +700,8 @@ def call_builtin(ex, name, args, kwargs):
         if not (isinstance(val, VBool) and isinstance(tag, VStr)):
             raise OutOfSubset("set_node_attributes with non-constant value")
         check_owned(ex, g, "set_node_attributes")
+        if g.tracked:
+            raise OutOfSubset('set_node_attributes inside a loop')
         N0 = g._N
         old = g.nattrs.get(tag.s)
         v = val.t
@@ -665,11 +724,10 @@ def combinations2(ex, src):
     if s.kind == "list" and False:
         raise OutOfSubset("combinations over a list with possible duplicates")
     S = s.pred
-    o = L.pred("comb", 2)
-    L.add_axioms({o.name()}, [
-        L.forall(2, lambda a, b: L.Implies(o(a, b), L.And(S(a), S(b), a != b))),
-        L.forall(2, lambda a, b: L.Implies(L.And(S(a), S(b), a != b), L.Or(o(a, b), o(b, a)))),
-        L.forall(2, lambda a, b: L.Not(L.And(o(a, b), o(b, a)))),
+    o = param_pred(ex, "comb", 2, [
+        lambda o: L.forall(2, lambda a, b: L.Implies(o(a, b), L.And(S(a), S(b), a != b))),
+        lambda o: L.forall(2, lambda a, b: L.Implies(L.And(S(a), S(b), a != b), L.Or(o(a, b), o(b, a)))),
+        lambda o: L.forall(2, lambda a, b: L.Not(L.And(o(a, b), o(b, a)))),
     ])
     if s.kind == "list":
         ex.assumption_notes.add("combinations() over an iterator of distinct elements (predecessors/successors views)")
@@ -720,8 +778,15 @@ def nx_add_edges_from(ex, g: VNx, coll):
     g.add_N(lambda x: L.exists(1, lambda w: L.Or(s.has(x, w), s.has(w, x))))
 
 
+MUTATING_METHODS = {"add_node", "add_edge", "add_nodes_from", "add_edges_from", "remove_node", "remove_nodes_from",
+                    "add", "append", "update", "extend", "pop", "remove", "discard", "clear"}
+
+
 def call_method(ex, obj, name, args, kwargs):
     L = ex.L
+    args = [freeze(a) if isinstance(a, V) else a for a in args]
+    if name not in MUTATING_METHODS:
+        obj = freeze(obj)
     # ---------------- networkx graph objects
     if isinstance(obj, VNx):
         if name == "add_node":
@@ -782,8 +847,7 @@ def call_method(ex, obj, name, args, kwargs):
         if name == "has_node":
             return VBool(obj.N(args[0].t))
         if name == "copy":
-            N, E = obj._N, obj._E
-            obj._check_read()
+            N, E = obj.curN, obj.curE
             return VNx(obj.directed, N, E, owned=True, nattrs=obj.nattrs, gattrs=obj.gattrs)
         if name == "subgraph":
             s = ex.as_set(args[0])
@@ -796,8 +860,9 @@ def call_method(ex, obj, name, args, kwargs):
             s = ex.as_set(args[0]) if name == "remove_nodes_from" else VSet(lambda x: x == args[0].t)
             if name == "remove_node":
                 ex.require(obj.N(args[0].t), "NetworkXError", "remove_node")
+            if obj.tracked:
+                raise OutOfSubset("node removal inside a loop (needs a sidecar invariant)")
             oN, oE = obj._N, obj._E
-            obj._check_read()
             obj._N = lambda x: L.And(oN(x), L.Not(s.has(x)))
             obj._E = lambda a, b: L.And(oE(a, b), L.Not(s.has(a)), L.Not(s.has(b)))
             return NONE
